@@ -136,6 +136,24 @@ func C09Programs() []string {
 		out = append(out, decl+"acc := e\nfor i := range 2\n    acc = acc + a\n    acc[0] = "+elem+"\n    print i a acc e\nend\n")
 		out = append(out, decl+"rows := [a a[:]]\nflat := e\nfor row := range rows\n    flat = flat + row\nend\nflat[0] = "+elem+"\nprint rows flat a e\n")
 	}
+	// chains of concatenations that keep the old array: the result of a concatenation is itself a left operand
+	// (twice: siblings), for every length of the first operand — the host's arrays grow with spare room
+	for n := 0; n <= 17; n++ {
+		lit := "["
+		for i := 1; i <= n; i++ {
+			lit += fmt.Sprint(i) + " "
+		}
+		lit = strings.TrimSpace(lit) + "]"
+		decl := "e:[]num\nprint e\n"
+		if n == 0 {
+			lit = "e"
+		}
+		out = append(out,
+			decl+"base := "+lit+" + [40]\nb := base + [50]\nc := base + [60]\nprint base b c\nb[0] = 9\nprint base b c\nbase[0] = 8\nc[-1] = 7\nprint base b c\n",
+			decl+"base := "+lit+" + [40]\nbase = base + [41]\nb := base + [50] + [51]\nc := base + [60]\nd := b + [70]\ne2 := b + [80]\nprint base b c d e2\nd[-1] = 1\nb[0] = 2\nprint base b c d e2\n",
+			decl+"func walk path:[]num depth:num\n    if depth == 0\n        print path\n        return\n    end\n    walk path+[depth] depth-1\n    walk path+[depth*10] depth-1\nend\nwalk "+lit+"+[0] 3\n",
+			decl+"func grown:[]num a:[]num\n    return a + [100]\nend\nbase := "+lit+" + [40]\np := (grown base)\nq := (grown base)\nr := (grown p)\nr2 := (grown p)\nr[0] = 5\nr2[-1] = 6\nprint base p q r r2\n")
+	}
 	// composites held in an any are shared through every way a value travels: declaration, assignment, any parameter,
 	// variadic any parameter, return, element of an any array / map literal, loop variable
 	for _, mk := range [][2]string{{"arr := [1 2]", "arr[0] = 9"}, {"arr := {k:1}", "arr.k = 9"}, {"arr := [[1] [2]]", "arr[1][0] = 9"}} {
